@@ -12,7 +12,6 @@ import (
 	"fmt"
 	"sort"
 	"strings"
-	"sync"
 	"testing"
 
 	"github.com/New-JAMneration/JAM-Protocol/internal/database"
@@ -36,7 +35,6 @@ var alphabetASCII = []byte{0x00, 'a', 'b', '*', '?', '[', ']', 0x7f}
 var alphabetBinary = []byte{0x00, 'a', 'b', '*', '?', '[', ']', '\\', 0x80, 0xff}
 
 var (
-	mrOnce sync.Once
 	mr     *miniredis.Miniredis
 	mrErr  error
 )
@@ -93,11 +91,15 @@ func runOne(r *sim.Run) {
 			}
 		}
 	}()
-	mrOnce.Do(func() { mr, mrErr = miniredis.Run() })
+	// a fresh Redis stand-in per run: a command of an earlier run that the client gave up on (host stall) may still be
+	// executed by the old server after a flush; with a server of its own no run can see another run's writes
+	if mr != nil {
+		mr.Close()
+	}
+	mr, mrErr = miniredis.Run()
 	if mrErr != nil {
 		panic("miniredis: " + mrErr.Error())
 	}
-	mr.FlushAll()
 	pdb, err := pebbledb.NewTestDatabase()
 	if err != nil {
 		panic("pebble: " + err.Error())
@@ -167,6 +169,73 @@ func runOne(r *sim.Run) {
 		}
 	}
 
+	// a POPULATED store: hundreds to thousands of entries (written one by one or in one large batch), a few values of
+	// 64 KiB .. 1 MiB and a long key, before the ordinary operations start: iterations then walk many entries (cursor
+	// pages, buffers that grow), batches are large, and whatever a provider keeps per entry meets counts beyond 8 bits
+	if t.Prob(1, 12, "populated_store") {
+		n := []int{100, 255, 256, 257, 1000, 1025, 3000}[t.Choose(7, "populated_n")]
+		viaBatch := t.Bool("populated_via_batch")
+		pre := []byte{alphabet[t.Choose(len(alphabet), "populated_prefix")]}
+		if hasMeta(pre) || pre[0] == 0 {
+			pre = []byte("p")
+		}
+		var bs []database.Batch
+		if viaBatch {
+			for _, p := range provs {
+				bs = append(bs, p.db.NewBatch())
+			}
+		}
+		bigAt := t.Choose(n, "populated_big_at")
+		for i := 0; i < n && !r.Violated(); i++ {
+			k := append(append([]byte(nil), pre...), []byte(fmt.Sprintf("%05d", i*7919%100000))...)
+			v := []byte(fmt.Sprintf("bulk-%d", i))
+			if i == bigAt {
+				v = append(v, bytes.Repeat([]byte{byte(i), 0x5A}, []int{32768, 40000, 524288 + 7}[t.Choose(3, "populated_big_len")])...)
+			}
+			if i == (bigAt+1)%n {
+				k = append(k, bytes.Repeat([]byte("k"), 300+t.Choose(900, "populated_long_key"))...)
+			}
+			for j, p := range provs {
+				kb, vb := append([]byte(nil), k...), append([]byte(nil), v...)
+				var err error
+				if viaBatch {
+					err = bs[j].Put(kb, vb)
+				} else {
+					err = p.db.Put(kb, vb)
+				}
+				if err != nil {
+					fail(p, "put", "error", "populating: Put(%s) returned %v", q(k), err)
+				}
+				scribble(kb)
+				scribble(vb)
+			}
+			model[string(k)] = v
+		}
+		keepOpen := viaBatch && t.Prob(1, 2, "populated_batch_left_open")
+		if keepOpen {
+			// the large batch stays open: until it is committed nothing of it may be visible, and if it is discarded
+			// nothing of it may remain (the ordinary operations that follow read, iterate, commit or discard it)
+			ob := &openBatch{real: bs}
+			ks := sortedKeys(model)
+			for _, k := range ks {
+				ob.ops = append(ob.ops, bop{false, k, model[k]})
+			}
+			model = map[string][]byte{}
+			batches = append(batches, ob)
+			r.Count("probe:large_batch_left_open", 1)
+		} else if viaBatch {
+			for j, p := range provs {
+				if err := bs[j].Commit(); err != nil {
+					fail(p, "batch-commit", "error", "populating: Commit of %d entries returned %v", n, err)
+				}
+				if err := bs[j].Close(); err != nil {
+					fail(p, "batch-close", "error", "populating: Close returned %v", err)
+				}
+			}
+		}
+		hist = append(hist, fmt.Sprintf("populate(%d entries under %s, batch=%v)", n, q(pre), viaBatch))
+		r.Count("probe:populated_store_hundreds_of_entries", 1)
+	}
 	for step := 0; step < nOps && !r.Violated(); step++ {
 		op := t.Pick([]int{6, 3, 5, 2, 3, 5, 3, 3, 1, 6}, "op")
 		switch op {
